@@ -15,7 +15,7 @@ clause → theorem
 * the four retry loops have the shape the model assumes ............. `C19.source_forms`
 * both `is_retryable_error` tables are the same ...................... `C19.sync_async_same_table`
 * the table holds only transport-level kinds, never app errors ....... `C19.table_transport_only`
-* at most `max_attempts` attempts .................................... `C19.attempts_le_max`
+* at most `max_attempts` attempts .................................... `C19.attempts_le_max`, `C19.contacts_le_max`
 * retries only after transport-level failures ........................ `C19.retry_only_after_retryable`
 * stops at the first reply (success or application error) ........... `C19.stops_at_first_reply`
 * reports that reply or the last transport error ..................... `C19.reports_reply_or_last_transport_error`,
@@ -63,6 +63,13 @@ theorem attempts_le_max (P : Policy) (lf : LoopForm) (hlf : lf ∈ loops) (max :
   exact run_log_length_le P _ max c bs
 
 example : (call Gen.Fleet.policy Gen.Fleet.loopJson 3 .none [.silent, .refused, .acceptThenClose, .success]).attempts = 3 := by decide
+
+/-- What a scripted node can count — the attempts that reached it — is bounded the same way. -/
+theorem contacts_le_max (P : Policy) (lf : LoopForm) (hlf : lf ∈ loops) (max : Nat) (c : Cache)
+    (bs : List Behaviour) : (call P lf max c bs).contacts ≤ max :=
+  Nat.le_trans (contacts_le_attempts _) (attempts_le_max P lf hlf max c bs)
+
+example : Gen.Fleet.loopJson ∈ loops ∧ Gen.Fleet.asyncLoopMessage ∈ loops ∧ Gen.Fleet.policy ∈ policies := by decide
 
 /-- Every attempt that was followed by another one failed with an `io` error whose kind is in the
 extracted table and is transport-level. -/
@@ -258,6 +265,8 @@ theorem broadcast_one_result_each (P : Policy) (lf : LoopForm) (ff : FilterForm)
   refine ⟨h1, by simp [broadcast], ?_⟩
   rw [h1]
   exact List.Nodup.sublist (List.Sublist.map _ List.filter_sublist) hn
+
+example : (([⟨"n1", ["a"], []⟩, ⟨"n2", [], []⟩] : List Node).map (·.name)).Nodup := by decide
 
 example : (targets Gen.Fleet.filter ["a"] [⟨"n1", ["a", "b"], []⟩, ⟨"n2", ["b"], []⟩]).map (·.name) = ["n1"] := by
   decide
